@@ -84,6 +84,17 @@ func NewFakeIdP() *FakeIdP {
 				}
 			}
 		}
+		if ans.Cut > 0 && ans.Cut < len(ans.Body) {
+			if hj, ok := w.(http.Hijacker); ok {
+				if conn, _, err := hj.Hijack(); err == nil {
+					// a response cut short on the wire: the announced length is never delivered
+					fmt.Fprintf(conn, "HTTP/1.1 %d %s\r\nContent-Type: application/json\r\nContent-Length: %d\r\nConnection: close\r\n\r\n%s",
+						ans.Status, http.StatusText(ans.Status), len(ans.Body), ans.Body[:ans.Cut])
+					conn.Close()
+					return
+				}
+			}
+		}
 		w.Header().Set("Content-Type", "application/json")
 		w.WriteHeader(ans.Status)
 		io.WriteString(w, ans.Body)
